@@ -41,6 +41,7 @@ CATALOGUE = {
     "backup_before_justification": [("b", 1, 2, "NoStuckCandidate")],
     # a second schedule for one weakening: key = weaken@tag
     "send_before_persist@agreement": [("a", 1, 2, "Agreement")],
+    "no_persist_on_timeout@certunique": [("a", 1, 2, "CertUnique")],
 }
 
 
